@@ -32,6 +32,13 @@ __CPROVER_assigns (n->notified, n->waiters);
 int nsync_mu_semaphore_p_with_deadline (nsync_semaphore *s, nsync_time d) {
 	__CPROVER_assert (s == &the_w.sem, "C05: the thread sleeps on its own semaphore");
 	__CPROVER_assert (!vp_amu.held[0], "C05/C13: the thread does not sleep holding the note's lock");
+	if (vp_nt.note[0] != NULL) {
+		/* "once the note is notified the call needs no further wake-up": it sleeps only while a record that posts its own semaphore is on the
+		   note's waiter list (a notifier clears that record's flag and posts it) */
+		struct nsync_waiter_s *last = the_note.waiters != NULL ? (struct nsync_waiter_s *) the_note.waiters->container : NULL;
+		__CPROVER_assert (the_note.notified != 0 || (last != NULL && last != &foreign && last->sem == &the_w.sem && last->waiting == 1 && last->tag == NSYNC_WAITER_TAG),
+				  "C05: a cancellable wait sleeps only while registered on its note, with a record that posts its own semaphore (a notification needs no further wake-up)");
+	}
 	vp_sw.p_calls++; vp_sw.p_deadline = d;
 	vp_sw.p_result = (vp_nondet_bool () && !t_eq (d, nsync_time_no_deadline)) ? ETIMEDOUT : 0;
 	/* while this thread sleeps another thread may notify the note: it then sets the flag and removes every waiter, under note_mu */
